@@ -40,7 +40,11 @@ struct Block {
     no_from: bool,
 }
 
-fn program(blocks: &[Block], store: &[Utxo], collateral: Option<i64>) -> Program {
+/// block names that sort on both sides of each other and of the name the resolver gives the
+/// collateral query ("collateral"): blocks are visited in name order
+const NAME_POOL: [&str; 12] = ["a_src", "blk", "bravo", "c", "collateral_extra", "cz", "dust", "fee_payer", "main", "source", "x", "zeta"];
+
+fn program(blocks: &[Block], store: &[Utxo], collateral: Option<i64>, names: &[String]) -> Program {
     let mut inputs = vec![];
     for (i, b) in blocks.iter().enumerate() {
         let mut min = E::Ada(Box::new(E::Int(b.lovelace as i128)));
@@ -48,7 +52,7 @@ fn program(blocks: &[Block], store: &[Utxo], collateral: Option<i64>) -> Program
             min = E::Add(Box::new(min), Box::new(E::AssetCall("Tok".into(), Box::new(E::Int(b.token as i128)))));
         }
         inputs.push(Input {
-            name: format!("blk{i}"),
+            name: names[i].clone(),
             many: b.many,
             from: if b.no_from { None } else { Some(E::Party("Owner".into())) },
             min_amount: Some(min),
@@ -87,7 +91,7 @@ impl Property for C04 {
         }
     }
     fn required_features(&self, _tier: Tier) -> Vec<String> {
-        ["resolve/ok", "resolve/err", "resolve_tx/ok", "blocks/4", "shape/many", "shape/shared-ref", "shape/collateral", "store/too-small", "store/exact"].iter().map(|s| s.to_string()).collect()
+        ["resolve/ok", "resolve/err", "resolve_tx/ok", "blocks/4", "shape/many", "shape/shared-ref", "shape/collateral", "shape/collateral-between-inputs", "store/too-small", "store/exact"].iter().map(|s| s.to_string()).collect()
     }
     fn run_case(&self, ctx: &mut Ctx, phase: &str, idx: u64, rng: &mut Rng) {
         let k = 1 + rng.usize(4);
@@ -140,11 +144,21 @@ impl Property for C04 {
         if blocks.iter().filter(|b| b.rf.is_some() && b.rf == shared_ref).count() >= 2 {
             ctx.count("shape/shared-ref");
         }
-        let collateral = if rng.chance(1, 3) { Some(base - 1_000_000) } else { None };
+        let collateral = if rng.chance(1, 2) { Some(base + rng.range(-1_500_000, 500_000)) } else { None };
         if collateral.is_some() {
             ctx.count("shape/collateral");
         }
-        let prog = program(&blocks, &store, collateral);
+        // distinct names in random order relative to the declaration order and to "collateral"
+        let mut pool: Vec<&str> = NAME_POOL.to_vec();
+        let mut names: Vec<String> = vec![];
+        for i in 0..k {
+            let j = rng.usize(pool.len());
+            names.push(format!("{}{}", pool.remove(j), if rng.bool() { i.to_string() } else { String::new() }));
+        }
+        if collateral.is_some() && names.iter().any(|n| n.as_str() < "collateral") && names.iter().any(|n| n.as_str() > "collateral") {
+            ctx.count("shape/collateral-between-inputs");
+        }
+        let prog = program(&blocks, &store, collateral, &names);
         let src = print_program(&prog, Layout::plain());
         let Ok(lowered) = front(&src, "spend") else {
             ctx.count("front/rejected");
